@@ -115,6 +115,21 @@ def validated_cache(run, cache):
     return resolver, None
 
 
+def final_state_parts(parts, fn):
+    """a local that the function stores into a member afterwards (plain assignment, the local not changed in between) names
+    that member's value when the function returns"""
+    out = []
+    for p_ in parts:
+        if isinstance(p_, tuple) and len(p_) == 1 and p_[0].startswith("l:"):
+            hit = [lp for lp, rhs, node in consumption_targets(fn["body"]) if lp and len(lp) == 2 and lp[0] == "this" and path(unwrap_all_casts(rhs)) == p_]
+            stores = [lp for lp, rhs, node in consumption_targets(fn["body"]) if lp == p_]
+            if len(hit) == 1 and not stores:
+                out.append(hit[0])
+                continue
+        out.append(p_)
+    return out
+
+
 def resolve_locals(parts, fn, resolver, depth=0):
     """single-assignment locals in a parts list are replaced by the parts of their initialiser"""
     if fn is None or depth > 4:
@@ -184,7 +199,19 @@ def check_names(run, R1, R2, only_names=False):
                 renames.append((f, c))
             if c.get("k") == "Construct" and ("basic_ofstream" in (c.get("t") or "")) and c.get("args"):
                 opens.append((f, c))
-    ok = len(opens) == 1 and opens[0][0].get("cls") == WSTR and opens[0][0]["qn"].endswith("::open")
+    def committed_aside(f_, c_):
+        """a local ofstream constructed on a name and then assigned / moved into m_out in Writer<std::string>::rotate_output"""
+        if c_.get("k") != "Construct" or f_.get("cls") != WSTR or not f_["qn"].endswith("::rotate_output"):
+            return False
+        for d_ in ir.walk(f_["body"]):
+            if d_.get("k") == "Decl" and len(d_.get("vars", [])) == 1 and any(x is c_ for x in ir.walk(d_["vars"][0].get("init"))):
+                key_ = ("l:%s#%s" % (d_["vars"][0]["n"], d_["vars"][0]["id"]),)
+                return any(lp_ == ("this", "m_out") and path(unwrap_all_casts(rhs_)) == key_
+                           for lp_, rhs_, n_ in consumption_targets(f_["body"]))
+        return False
+    extra_sites = [(f_, c_) for f_, c_ in opens if committed_aside(f_, c_)]
+    opens = [o for o in opens if not any(o[1] is e_[1] for e_ in extra_sites)] + extra_sites
+    ok = len(opens) - len(extra_sites) == 1 and opens[0][0].get("cls") == WSTR and opens[0][0]["qn"].endswith("::open")
     if not only_names:
         run.ob(R1, "single-open-site", ok, opens[0][0] if opens else None, opens[0][1].get("l", 0) if opens else 0,
                "output files are opened at exactly one site, Writer<std::string>::open" if ok else
@@ -204,6 +231,12 @@ def check_names(run, R1, R2, only_names=False):
             # <name> <something kept in another member> .part : what that member holds is not decided here
             okp = None
             cache_undecided = "member %s takes the place of the extension" % [x for x in open_parts if isinstance(x, tuple) and x not in (("this", "m_value"), ("this", "m_extension"))][0][-1]
+        for f2_, c2_ in extra_sites:
+            # the name a stream opened aside is opened on, over the state the function leaves behind (`m_value = next;`)
+            p2 = expand_cached(resolve_locals(final_state_parts(path_expr_parts(c2_["args"][0]), f2_), f2_, resolver), cache)
+            ok2 = p2 == [("this", "m_value"), ("this", "m_extension"), ".part"]
+            run.ob(R1, "open-target-is-.part@rotate_output", ok2, f2_, c2_.get("l", 0),
+                   "the stream opened aside is opened on <new name><ext>.part" if ok2 else "the stream opened aside in rotate_output is opened on %s, not on <new name><ext>.part" % p2)
         run.ob(R1, "open-target-is-.part", okp, f, c.get("l", 0),
                "the stream is opened on <name><ext>.part" if okp else
                (("the name the stream is opened on is kept in members and may belong to another output: %s" % cache_undecided[9:]) if (okp is False and refuted) else
@@ -324,7 +357,12 @@ def check_rest(run):
                "the compressed stream is finished before the inner writer closes and renames the file" if seq[:2] == ["close", "inner"] else "sequence %s" % seq)
     ro = facts.fn(WSTR + "::rotate_output", rule="R15.4")
     calls = ordered_calls(ro)
-    seq = [callee_name(c[0]) for c in calls if c[0].get("k") == "MCall" and unwrap(c[0].get("recv") or {}).get("k") == "This" and callee_name(c[0]) in ("close", "open")]
+    seq = []
+    for c in calls:
+        if c[0].get("k") == "MCall" and unwrap(c[0].get("recv") or {}).get("k") == "This" and callee_name(c[0]) in ("close", "open"):
+            seq.append(callee_name(c[0]))
+        if c[0].get("k") == "Construct" and "basic_ofstream" in (c[0].get("t") or "") and c[0].get("args"):
+            seq.append("open")          # the new file opened in a local stream that is committed to m_out afterwards
     run.ob("R15.4", "Writer<std::string>::rotate_output:close-then-open", seq == ["close", "open"], ro, ro["line"],
            "the old file is completed (close+rename) before the new .part file is opened")
     run.floor("R15.4", 5, "rotate chain")
